@@ -37,7 +37,7 @@ def run(ctx, idx):
            "mask = (data == %s) stored on the returned array" % miss[0] if ok and eq else (
                "cells are marked missing by a `%s` comparison with `%s`, not by equality: values merely close to the missing value are masked too" % ("/".join(ops), miss[0]) if ok and not eq else
                "the cells equal to `%s` are not the ones marked missing on the returned array" % (miss[0] if miss else "MissingVal")))
-    # the mask must be guarded by 'a missing value was given'
+    R.zero_is_a_value(ctx, "C17.b", d, r)
     # ---- c
     fi = d.execute
     cfg = K.cfg_of(idx, fi)
@@ -92,6 +92,35 @@ def run(ctx, idx):
     if filtered_src is not None and bool(subs):
         ok = True  # blank rows are removed by the filtering iterable itself
     ctx.ob("C17.c", "%s.execute::blank-rows" % d.key, d.module.rel, subs[0].line if subs else h.line, ok, "blank rows are skipped before the row is indexed" if ok else "a blank line reaches `%s[...]` and fails with IndexError instead of being skipped" % rowvar)
+    # every numeric spelling is read: the cell text goes through float() (int('2.0') / int('1e3') are ValueErrors)
+    parents = {}
+    for n in ast.walk(fi.node):
+        for c in ast.iter_child_nodes(n):
+            parents[id(c)] = n
+    n_parse = 0
+    for sn_ in subs:
+        p_ = sn_.ast
+        call = None
+        while id(p_) in parents:
+            q = parents[id(p_)]
+            if isinstance(q, ast.Call) and p_ in q.args:
+                call = q
+                if not (isinstance(q.func, ast.Attribute) and q.func.attr in ("strip", "replace", "lstrip", "rstrip")):
+                    break
+            elif isinstance(q, ast.Attribute):
+                pass
+            else:
+                break
+            p_ = q
+        if call is None:
+            continue
+        n_parse += 1
+        fexp = K.expand(fi, call.func)
+        qn = idx.qualname(fi.module, fexp, fi) if isinstance(fexp, (ast.Name, ast.Attribute)) else None
+        okp = qn in ("builtins.float", "numpy.float64", "numpy.double")
+        ctx.ob("C17.c", "%s.execute::cell-parse" % d.key, d.module.rel, call.lineno, okp, "cells are parsed with float()" if okp else
+               "cells are parsed with `%s`, not float(): for an integer element type a numeric cell written `2.0` or `1e3` (as EEMSWrite itself writes integer columns next to float ones) is rejected as an invalid value" % K.src(fexp)[:60])
+    ctx.floor("C17.c", "cell parsing calls", n_parse, 1)
     # ---- d, e (writer)
     d, r = wr
     fi = d.execute
@@ -140,6 +169,34 @@ def run(ctx, idx):
     else:
         ctx.hold("C17.e", con, d.module.rel, wrows[0].lineno, "array cells go to csv.writer unrounded and unformatted")
     # rows come from transposing the stacked arrays: one row per cell, one column per result
-    tr = [n for n in own_nodes(fi.node) if isinstance(n, ast.Call) and isinstance(n.func, ast.Attribute) and n.func.attr == "transpose"]
-    ok = bool(tr) and K.src(tr[0]).replace(" ", "").endswith("transpose([1,0])") or bool(tr) and K.src(tr[0]).replace(" ", "").endswith("transpose()")
-    ctx.ob("C17.d", "%s.execute::rows-are-cells" % d.key, d.module.rel, tr[0].lineno if tr else fi.node.lineno, bool(ok), "stack of columns transposed to one row per cell" if ok else "the stacked results are not transposed to one row per cell")
+    how = None
+    line = fi.node.lineno
+    for n in own_nodes(fi.node):
+        t = K.src(n).replace(" ", "")
+        if isinstance(n, ast.Call) and isinstance(n.func, ast.Attribute) and n.func.attr in ("transpose", "swapaxes"):
+            a = [K.src(x).replace(" ", "") for x in n.args]
+            if n.func.attr == "transpose" and (not a or a in (["[1,0]"], ["(1,0)"], ["1", "0"])) or n.func.attr == "swapaxes" and a in (["0", "1"], ["1", "0"]):
+                how, line = "stack of columns transposed (%s)" % K.src(n.func)[-20:], n.lineno
+        elif isinstance(n, ast.Attribute) and n.attr == "T" and isinstance(n.ctx, ast.Load):
+            how, line = "stack of columns transposed (.T)", n.lineno
+        elif isinstance(n, ast.Call) and (idx.qualname(fi.module, n.func, fi) or "") in ("numpy.transpose", "numpy.ma.transpose") and len(n.args) == 1:
+            how, line = "stack of columns transposed (numpy.transpose)", n.lineno
+        elif isinstance(n, ast.Call) and (idx.qualname(fi.module, n.func, fi) or "").split(".")[-1] in ("column_stack",):
+            how, line = "columns joined side by side (column_stack)", n.lineno
+        elif isinstance(n, ast.Call) and (idx.qualname(fi.module, n.func, fi) or "").split(".")[-1] == "stack" and any(k.arg == "axis" and K.src(k.value) in ("1", "-1") for k in n.keywords):
+            how, line = "columns stacked along axis 1", n.lineno
+        elif isinstance(n, ast.Call) and isinstance(n.func, ast.Name) and n.func.id == "zip" and len(n.args) == 1 and isinstance(n.args[0], ast.Starred):
+            how, line = "rows taken with zip(*columns)", n.lineno
+        elif isinstance(n, ast.Assign) and len(n.targets) == 1 and isinstance(n.targets[0], ast.Subscript) and isinstance(n.targets[0].slice, ast.Tuple) and len(n.targets[0].slice.elts) == 2 \
+                and isinstance(n.targets[0].slice.elts[0], ast.Slice) and n.targets[0].slice.elts[0].lower is None and n.targets[0].slice.elts[0].upper is None and isinstance(n.targets[0].slice.elts[1], ast.Name):
+            how, line = "table filled column by column (out[:, j] = column)", n.lineno
+    if how is None:
+        stacked_rows = any(isinstance(n, ast.Call) and isinstance(n.func, ast.Attribute) and n.func.attr == "writerows" and n.args and ("arrays" in K.names_in(n.args[0]) or (idx.qualname(fi.module, getattr(n.args[0], "func", ast.Name(id="?", ctx=ast.Load())), fi) or "").endswith(".array")) for n in own_nodes(fi.node))
+        if stacked_rows:
+            ctx.violate("C17.d", "%s.execute::rows-are-cells" % d.key, d.module.rel, line, "the results are written as they are stacked, one row per result instead of one row per cell")
+        else:
+            ctx.violate("C17.d", "%s.execute::rows-are-cells" % d.key, d.module.rel, line, "the stacked results are not transposed to one row per cell")
+    else:
+        ctx.hold("C17.d", "%s.execute::rows-are-cells" % d.key, d.module.rel, line, how)
+    from .C07 import dtype_rule
+    dtype_rule(ctx, "C17.e", d, r)
